@@ -26,7 +26,12 @@ Ks == {7, 8, 15, 16, 31, 32, 63, 64, 127, 128, 255, 256}
 Boundary(t) == {ZAdd(MinOf(t), ZI(d)) : d \in -2 .. 1} \cup {ZAdd(MaxOf(t), ZI(d)) : d \in -1 .. 2}
                \cup {ZI(-1), ZI(0), ZI(1)}
 Powers(t) == UNION {{ZAdd(Z(sg, NPow2(k)), ZI(d)) : d \in -1 .. 1, sg \in BOOLEAN} : k \in {x \in Ks : x <= t.b}}
-Values(t) == {v \in Boundary(t) \cup Powers(t) : v.mag # <<>> \/ ~v.neg}
+(* "round" constants n * 2^k as they appear in masks (0xA000..., 0xF000...): low limbs all zero under a
+   non-zero limb, which is what a limb-wise reader of the decimal expansion can get wrong *)
+RoundKs(t) == {k \in {64, t.b \div 2, (t.b \div 2) + 4, t.b - 8, t.b - 4} : k < t.b}
+Round(t) == IF t.b < 64 THEN {}
+            ELSE {Z(sg, NShl(NFromInt(n), k)) : n \in {5, 10, 15}, k \in RoundKs(t), sg \in BOOLEAN}
+Values(t) == {v \in Boundary(t) \cup Powers(t) \cup Round(t) : v.mag # <<>> \/ ~v.neg}
 
 (* ---- text of a value ---- *)
 DigitChar(d) == <<"0","1","2","3","4","5","6","7","8","9","a","b","c","d","e","f">>[d + 1]
@@ -41,7 +46,10 @@ Body(v, base, sep) == LET ds == Digits(v, base) IN
                       CASE sep = "none" -> ds
                         [] sep = "group" -> WithSep(ds, GroupLen(base), 1)
                         [] sep = "single" -> IF Len(ds) < 2 THEN ds ELSE <<ds[1], "_">> \o SubSeq(ds, 2, Len(ds))
-Text(v, base, sep) == (IF v.neg THEN <<"-">> ELSE <<>>) \o Prefix(base) \o Body(v, base, sep)
+(* sgn = "spaced": the minus sign is written apart from the digits ("- 5"), i.e. as a unary minus applied to
+   the literal; the value denoted is the same *)
+Text(v, base, sep, sgn) == (IF v.neg THEN (IF sgn = "spaced" THEN <<"-", " ">> ELSE <<"-">>) ELSE <<>>)
+                           \o Prefix(base) \o Body(v, base, sep)
 
 (* ---- reading a literal ---- *)
 CharVal(c) == CHOOSE d \in 0 .. 15 : DigitChar(d) = c
@@ -49,21 +57,24 @@ RECURSIVE StripSep(_)
 StripSep(cs) == IF cs = <<>> THEN <<>> ELSE (IF Head(cs) = "_" THEN <<>> ELSE <<Head(cs)>>) \o StripSep(Tail(cs))
 LitValue(cs) ==
     LET neg == cs # <<>> /\ Head(cs) = "-"
-        u == IF neg THEN Tail(cs) ELSE cs
+        u0 == IF neg THEN Tail(cs) ELSE cs
+        u == IF u0 # <<>> /\ Head(u0) = " " THEN Tail(u0) ELSE u0
         base == IF Len(u) >= 2 /\ u[1] = "0" /\ u[2] \in {"x", "o", "b"}
                 THEN (CASE u[2] = "x" -> 16 [] u[2] = "o" -> 8 [] u[2] = "b" -> 2) ELSE 10
         body == StripSep(IF base = 10 THEN u ELSE SubSeq(u, 3, Len(u)))
     IN Z(neg, NFromBase([i \in 1 .. Len(body) |-> CharVal(body[i])], base))
 
-VARIABLES t, v, base, sep, pos
-vars == <<t, v, base, sep, pos>>
+VARIABLES t, v, base, sep, pos, sgn
+vars == <<t, v, base, sep, pos, sgn>>
 Init == /\ t \in Types /\ base \in Bases /\ sep \in Seps /\ pos \in Positions
         /\ v \in Values(t)
+        /\ sgn \in {"tight", "spaced"}
+        /\ sgn = "spaced" => v.neg /\ sep = "none"
 Next == UNCHANGED vars
 Spec == Init /\ [][Next]_vars
 
-ReadBack == LitValue(Text(v, base, sep)) = v
-Case == [ty |-> t.n, text |-> Text(v, base, sep), base |-> base, sep |-> sep, pos |-> pos,
+ReadBack == LitValue(Text(v, base, sep, sgn)) = v
+Case == [ty |-> t.n, text |-> Text(v, base, sep, sgn), base |-> base, sep |-> sep, pos |-> pos, sgn |-> sgn,
          inRange |-> InRange(v, t.b, t.s), neg |-> v.neg, dec |-> NToDec(v.mag)]
 Emit == PrintT("@@CASE " \o ToJson(Case))
 =============================================================================
